@@ -101,13 +101,14 @@ def case_to_coq(I, c):
         log = coq_list(["(%d%%nat, {| o_q := %s; o_sql := %s; o_args := %s; o_ok := %s |})" % (
             e["inst"], b(e["call"]["q"]), I.s(e["call"]["sql"]), coq_list([arg_to_coq(I, a) for a in e["call"]["args"]]),
             b(e["call"]["ok"])) for e in cc["log"]])
-        conc = ("(Some {| cc_cfgs := %s; cc_eff := %s; cc_log := %s; cc_errs := %s; cc_ttl := %s; cc_policy := %s; cc_settings := %s |})"
+        conc = ("(Some {| cc_cfgs := %s; cc_eff := %s; cc_log := %s; cc_errs := %s; cc_done := %s; cc_ttl := %s; cc_policy := %s; cc_settings := %s |})"
                 % (coq_list([cfg_to_coq(I, x) for x in cc["cfgs"]]), coq_list(["%d%%nat" % k for k in cc["eff"]]), log,
-                   coq_list([b(x) for x in cc["errs"]]), coq_list([I.s(tb[t]["ttl"]) for t in TABLES]),
+                   coq_list([b(x) for x in cc["errs"]]), coq_list([b(x) for x in cc["done"]]), coq_list([I.s(tb[t]["ttl"]) for t in TABLES]),
                    coq_list([I.s(tb[t]["policy"]) for t in TABLES]),
                    coq_list(["(%s, %s)" % (coq_Z(x["fp"]), I.s(x["value"])) for x in cc["state"]["settings"]])))
-    return "{| c_id := %d; c_init := %s; c_init_ttl := %s; c_init_policy := %s; c_runs := %s; c_conc := %s |}" % (
-        c["id"], init, ttl, pol, coq_list([run_to_coq(I, r) for r in c["runs"]]), conc)
+    return "{| c_id := %d; c_init := %s; c_init_ttl := %s; c_init_policy := %s; c_runs := %s; c_conc := %s; c_after := %s |}" % (
+        c["id"], init, ttl, pol, coq_list([run_to_coq(I, r) for r in c["runs"]]), conc,
+        coq_list([run_to_coq(I, r) for r in (c.get("after") or [])]))
 
 
 def eval_cases(ck, name, cases):
@@ -135,7 +136,8 @@ def eval_cases(ck, name, cases):
 
 def case_size(c):
     cc = c.get("conc")
-    return (len(c["runs"]) + (len(cc["cfgs"]) if cc else 0), sum(len(r["log"]) for r in c["runs"]) + (len(cc["log"]) if cc else 0),
+    return (len(c["runs"]) + len(c.get("after") or []) + (len(cc["cfgs"]) if cc else 0),
+            sum(len(r["log"]) for r in c["runs"] + (c.get("after") or [])) + (len(cc["log"]) if cc else 0),
             sum(len(r["cfg"]["days"]) for r in c["runs"]))
 
 
@@ -153,7 +155,8 @@ def strip_obs(c):
            "init_tables": c.get("init_tables") or [],
            "runs": [strip_run(r) for r in c["runs"]]}
     if c.get("conc") is not None:
-        out["conc"] = {"cfgs": c["conc"]["cfgs"], "sched": c["conc"]["sched"]}
+        out["conc"] = {"cfgs": c["conc"]["cfgs"], "sched": c["conc"]["sched"], "crash": c["conc"].get("crash")}
+        out["after"] = [strip_run(r) for r in (c.get("after") or [])]
     return out
 
 
@@ -169,7 +172,10 @@ def summarize(c):
         out.append({"concurrent_instances": cc["cfgs"], "schedule": cc["sched"], "granted": cc["eff"], "errs": cc["errs"],
                     "log": [(e["inst"], e["call"]["sql"] if not e["call"]["sql"].startswith("SELECT") else "SELECT <setting>",
                              e["call"]["args"]) for e in cc["log"]],
-                    "tables_after": cc["state"]["tables"], "settings_after": cc["state"]["settings"]})
+                    "finished": cc.get("done"), "tables_after": cc["state"]["tables"], "settings_after": cc["state"]["settings"]})
+    for r in c.get("after") or []:
+        out.append({"after": True, "cfg": r["cfg"], "err": r["err"], "calls": len(r["log"]),
+                    "alters": sum(1 for o in r["log"] if o["sql"].startswith("ALTER")), "tables_after": r["state"]["tables"]})
     return out
 
 
@@ -214,6 +220,8 @@ def shrink(ck, c, pred):
                     d = strip_obs(best)
                     d["conc"]["cfgs"] = [x for m, x in enumerate(cc["cfgs"]) if m != k]
                     d["conc"]["sched"] = [x - (1 if x > k else 0) for x in eff if x != k]
+                    if cc.get("crash"):
+                        d["conc"]["crash"] = [x for m, x in enumerate(cc["crash"]) if m != k]
                     cands.append(d)
         for i, r in enumerate(best["runs"]):
             if r["fault"] is not None:
@@ -480,6 +488,8 @@ def run_rotate(ck):
     concs = [c["conc"] for c in cases if c.get("conc") is not None]
     conc = {"cases": len(concs), "instances": sum(len(x["cfgs"]) for x in concs), "granted_statements": sum(len(x["eff"]) for x in concs),
             "same_configuration": sum(1 for x in concs if all(y == x["cfgs"][0] for y in x["cfgs"])),
+            "with_crashed_instances": sum(1 for x in concs if not all(x["done"])),
+            "runs_after": sum(len(c.get("after") or []) for c in cases),
             "switches_between_instances": sum(sum(1 for a, bb in zip(x["eff"], x["eff"][1:]) if a != bb) for x in concs)}
     ck.coverage["evaluations"] += len(cases)
     ck.coverage["distinct_nontrivial"] += len(distinct)
